@@ -485,3 +485,77 @@ def check_mesh_object(ctx):
         ctx.traces += 1
         model = [None if m is None else (m[0], m[1], 'V' if all(x in ('V', 'N') for x in m[2].split(',')) else m[2]) for m in model]
         compare_calls(ctx, 'planar_mesh', line, impl, model)
+
+
+# ---------------------------------------------------------------------------------------------------------------- the multi-colour optimiser (attribute flow)
+def check_optimizer_attrs(ctx):
+    """multi_color_hologram_optimizer: the attributes the REAL object assigns in `__init__` and in every `optimize` call (recorded by a `__setattr__`
+    hook on a subclass), and the tensors it hands to the torch optimiser, against the regenerated attribute-flow tables; monitors: every `optimize` call
+    (also the second one on the same object) returns the reconstruction of the hologram it returns, and what the first call returned is not changed by
+    the second"""
+    if not ctx.drv_ok:
+        return
+    import odak.learn.wave as LW
+    init_w, opt_w, opt_inplace, variables, nostale = ctx.model.ask(['goa_tables'])[0].split('|')
+    init_w, opt_w = [x for x in init_w.split(',') if x], [x for x in opt_w.split(',') if x]
+    variables = [v[5:] for v in variables.split(',') if v]
+    rng = ctx.rng
+    for method, peak in (('multi-color', False), ('conventional', True)) if not ctx.quick else ((('multi-color', False),) if ctx.seed % 2 == 0 else (('conventional', True),)):
+        log = []
+
+        class Traced(LW.multi_color_hologram_optimizer):
+            def __setattr__(self, k, v):
+                log.append(k)
+                object.__setattr__(self, k, v)
+        h = w = 32                                      # the 6-level total-variation term of the optimiser needs 32 pixels
+        wl = [0.6, 0.5, 0.45]
+        torch.manual_seed(rng.randrange(10 ** 6))
+        prop = LW.propagator(resolution=[h, w], wavelengths=wl, pixel_pitch=1.0, number_of_frames=3, number_of_depth_layers=2, volume_depth=2.0,
+                             image_location_offset=1.0, propagation_type='Bandlimited Angular Spectrum', propagator_type='forward', method=method,
+                             device=torch.device('cpu'))
+        opt = Traced(wavelengths=wl, resolution=[h, w], targets=torch.rand(2, 3, h, w), propagator=prop, number_of_frames=3, number_of_depth_layers=2,
+                     learning_rate=0.02, method=method, optimize_peak_amplitude=peak, device=torch.device('cpu'))
+        got_init = first_occurrences(log)
+        rec = {'routine': 'multi_color_hologram_optimizer', 'method': method, 'optimize_peak_amplitude': peak, 'seed': ctx.seed}
+        ctx.case(('goa', method, peak), True, rec)
+        ctx.count('regenerated attribute flow vs recorded attribute stores/%s' % method)
+        ctx.traces += 1
+        if set(got_init) != set(init_w):
+            ctx.alarm('correspondence', 'multi_color_hologram_optimizer.__init__ assigns the attributes %s, the regenerated table lists %s'
+                      % (sorted(set(got_init) - set(init_w)) or sorted(got_init), sorted(set(init_w) - set(got_init)) or sorted(init_w)))
+        kept = []
+        for run_i in range(2):
+            del log[:]
+            before = {n: v for n, v in vars(opt).items()}
+            try:
+                ph, rc, lp, cp, pa = opt.optimize(number_of_iterations=1, weights=[1., 1., 1., 0.], bits=8)
+            except Exception as e:
+                ctx.violation('multi_color_hologram_optimizer.optimize (call %d on one object) raised %r' % (run_i, e), rec, {'routine': 'multi_color', 'what': 'raises'})
+                break
+            wrote = first_occurrences(log)
+            if wrote != opt_w:
+                ctx.alarm('correspondence', 'multi_color_hologram_optimizer.optimize (call %d) assigns the attributes %s, the regenerated trace %s' % (run_i, wrote, opt_w))
+            handed = []
+            for g in opt.optimizer.param_groups:
+                for p_ in g['params']:
+                    for nme in variables:
+                        o = opt
+                        for part in nme.split('.'):
+                            o = getattr(o, part, None)
+                        if o is p_:
+                            handed.append(nme)
+            if not set(handed) <= set(variables) or not {'phase', 'offset'} <= set(handed) or len(handed) != sum(len(g['params']) for g in opt.optimizer.param_groups):
+                ctx.alarm('correspondence', 'multi_color_hologram_optimizer: the torch optimiser holds %s, the regenerated table lists %s' % (handed, variables))
+            # monitor: the returned reconstruction is the reconstruction of the returned hologram - for EVERY optimize call on the object
+            again = prop.reconstruct(ph)
+            if not torch.allclose(again, rc, atol=1e-5):
+                ctx.violation('multi_color optimiser: optimize call %d on one object returns a reconstruction that differs from propagator.reconstruct(returned phases)'
+                              % run_i, dict(rec, call=run_i), {'routine': 'multi_color', 'what': 'reconstruction', 'call': run_i})
+            kept.append((ph, rc, ph.detach().clone(), rc.detach().clone()))
+        for run_i, (ph, rc, ph0, rc0) in enumerate(kept):
+            if not torch.equal(ph.detach(), ph0) or not torch.equal(rc.detach(), rc0):
+                ctx.violation('multi_color optimiser: what optimize call %d returned was changed by a later optimize call on the same object' % run_i,
+                              dict(rec, call=run_i), {'routine': 'multi_color', 'what': 'result_changed_later'})
+                break
+    if nostale != 'true':
+        ctx.alarm('correspondence', 'regenerated attribute flow of optimize: an attribute is read before the call assigns it')
